@@ -347,6 +347,39 @@ def check(prog: Program, tier: str) -> Result:
     return res
 
 
+def _default_bracket(prog: Program, x0):
+    """(lower, upper) that utilities.solve_root searches between when neither is given and the starting value is x0: what reaches
+    its bracketing call on every path, read off its own code"""
+    sr = prog.func("ghedesigner.utilities.solve_root")
+
+    class H(Hooks):
+        def on_call(self, node, fname, args, kwargs, st, eng):
+            if fname == "objective_function" and len(args) == 1:
+                st.emit("OBJ", args[0], node)
+                return Rat.atom(f"OBJ({vkey(args[0])})")
+            if fname == "brentq":
+                st.emit("BRENT", tuple(args), node)
+                return Rat.atom("BRENTQ_ROOT")
+            return None
+
+    st = State()
+    for p_ in sr.params():
+        st.env[p_] = Rat.atom(p_)
+    st.env["x"] = x0
+    st.env["lower"] = Const(None)
+    st.env["upper"] = Const(None)
+    found = set()
+    vals = None
+    for f_ in Engine(prog, sr, H()).run_function(st):
+        for ev in f_.events:
+            if ev.kind == "BRENT" and len(ev.data) >= 3 and isinstance(ev.data[1], Rat) and isinstance(ev.data[2], Rat):
+                found.add((ev.data[1].key(), ev.data[2].key()))
+                vals = (ev.data[1], ev.data[2])
+    if len(found) != 1:
+        return None, None
+    return vals
+
+
 def _check_brackets(prog: Program, res: Result):
     """R15.5 (table rule): the two root searches must be given brackets that contain the root for the flows and grouts the tool
     accepts.  Recorded domain facts: for laminar tube flow the matching pipe conductivity lies at 0.03-0.05 of the estimate
@@ -405,6 +438,10 @@ def _check_brackets(prog: Program, res: Result):
                 continue
             n_paths += 1
             lo, hi, x0 = ev.data
+            if (lo is None or hi is None) and isinstance(x0, Rat):
+                # a bound that is not handed over is the one solve_root fills in itself from the starting value
+                dlo, dhi = _default_bracket(prog, x0)
+                lo, hi = (dlo if lo is None else lo), (dhi if hi is None else hi)
             rl, rh = ratio(lo), ratio(hi)
             ok = rl is not None and rh is not None and 0 < rl <= 0.01 + 1e-12 and rh >= 10 - 1e-9 and isinstance(x0, Rat) and x0.equals(K)
             shown = (f"[{rl} k_p', {rh} k_p']" if rl is not None and rh is not None else f"[{lo.key()[:50] if isinstance(lo, Rat) else lo}, {hi.key()[:50] if isinstance(hi, Rat) else hi}]")
